@@ -70,23 +70,24 @@ def judgeInv (sc : Scenario) (s : IStep) : Option String :=
       else judgeSubs sc.cfg p s.evs
 
 /-! failNum bookkeeping, recounted from the implementation's own trace and the op's script (independent of the model's
-    loop): a RoundTrip that ends with a response resets the backend's failNum (OnSuccess), one that ends with a
+    loop): a RoundTrip that ends with a response resets the backend's failNum (OnSuccess) unless its status is an outlier
+    status of the cluster (then it counts as a failure), one that ends with a
     connect / write (not caused by the client) / read-header / timeout error adds exactly one (OnFail), everything else
     leaves it; the health check's recovery (u step) resets it. -/
 
 def bumpFail (m : List (String × Nat)) (l : String) (f : Nat → Nat) : List (String × Nat) :=
   if m.any (·.1 == l) then m.map fun p => if p.1 == l then (p.1, f p.2) else p else (l, f 0) :: m
 
-def failsAfter (script : List Attempt) : List IEv → Nat → List (String × Nat) → List (String × Nat)
+def failsAfter (od : Nat) (script : List Attempt) : List IEv → Nat → List (String × Nat) → List (String × Nat)
   | [], _, m => m
   | e :: es, j, m =>
-    if e.fin then failsAfter script es (j + 1) m
+    if e.fin then failsAfter od script es (j + 1) m
     else
       let m' := match (script.getD j Attempt.dflt).rt with
-        | .ok _ => bumpFail m e.label fun _ => 0
+        | .ok st => if outlier od st then bumpFail m e.label (· + 1) else bumpFail m e.label fun _ => 0
         | .connect | .write | .rhdr | .timeout => bumpFail m e.label (· + 1)
         | _ => m
-      failsAfter script es (j + 1) m'
+      failsAfter od script es (j + 1) m'
 
 def flEq (m : List (String × Nat)) (fl : String) : Bool :=
   match parseSnap fl with
@@ -101,7 +102,7 @@ def judgeFails (sc : Scenario) : List IStep → List (String × Nat) → Option 
     if s.isInv then
       if s.panic then none else
       let rq := sc.reqs.getD s.k ⟨false, false, [], [], none⟩
-      let m' := failsAfter rq.script s.evs 0 m
+      let m' := failsAfter sc.cfg.od rq.script s.evs 0 m
       if s.fl != "" && !flEq m' s.fl then some "failnum-mismatch" else judgeFails sc ss m'
     else if s.flip then
       -- u<k>: recovery resets the failNum of backend #k ; d / x leave it
